@@ -145,9 +145,9 @@ func VerifC05Cond() {
 		nd.Assert(err == nil || isCCF, "C05-refusal-is-ConditionalCheckFailed")
 		after := vScanAll(c)
 		nd.Assert(vSameItems(before, after), "C05-refusal-changes-nothing")
-		if isCCF && retOld && present && op == 1 {
-			// the v2 adapter forwards ReturnValuesOnConditionCheckFailure for UpdateItem only
-			nd.Assert(vSameItem(failItem, m.full(target, tattrs)), "C05-refusal-carries-stored-item")
+		if isCCF && retOld && present {
+			nd.Reach("refusal-with-item-requested")
+			nd.Assert(vSameItem(failItem, m.full(target, tattrs)), "C05-refusal-carries-stored-item ["+[]string{"PutItem", "UpdateItem", "DeleteItem"}[op]+"]")
 		}
 	}
 	// whatever happened, the table now holds exactly what the model predicts
